@@ -55,9 +55,9 @@ def _scripts(rs):
     return {"returns_start": returns_start, "best_is_not_last": best_is_not_last, "no_hess_inv": no_hess_inv, "callback_aborts": callback_aborts}
 
 
-@group(["C08"], "fit.fit_scipy/abstract_minimiser", ["fit:fit_scipy", "fit:except_result", "fit:FitResult.__init__", "variable:VarsManager.set_trans_var", "variable:VarsManager.set_bound",
+@group(["C08"], "fit.fit_scipy/abstract_minimiser", ["fit:fit_scipy", "fit:fit_newton_cg", "fit:except_result", "fit:FitResult.__init__", "variable:VarsManager.set_trans_var", "variable:VarsManager.set_bound",
                                                     "variable:VarsManager.remove_bound", "variable:VarsManager.trans_fcn_grad"], env="tf", kind="B", cost=30,
-       bound="tiny 3-body model (2 resonances, mass and width of R_BC bounded two-sidedly, 4 couplings fixed), methods BFGS / CG / L-BFGS-B x 4 scripted minimisers "
+       bound="tiny 3-body model (2 resonances, mass and width of R_BC bounded two-sidedly, 4 couplings fixed), methods BFGS / CG / L-BFGS-B x 4 scripted minimisers, Newton-CG / trust-ncg-p (fit_newton_cg) x 3 "
              "(returns the start; returns a point that is not the last one evaluated; result without hess_inv; the repository's own callback aborts with LargeNumberError)",
        assumes=["scipy.optimize.minimize is replaced by scripted adversaries that stay within its documented interface (A-LIB made explicit)"])
 def fit_scipy_abstract_minimiser(ctx):
@@ -73,8 +73,10 @@ def fit_scipy_abstract_minimiser(ctx):
         "fixed_unchanged": "fixed parameters and the list of trainable parameters are unchanged",
         "callers_bounds_unchanged": "the caller's bounds dictionary is unchanged",
     }
-    for method in ("BFGS", "CG", "L-BFGS-B"):
+    for method in ("BFGS", "CG", "L-BFGS-B", "Newton-CG", "trust-ncg-p"):
         for sname, script in _scripts(rs).items():
+            if sname == "callback_aborts" and method in ("Newton-CG", "trust-ncg-p"):
+                continue   # fit_newton_cg hands no callback to the minimiser
             cfg = L.tiny_dict("default", constrains={"fix_var": dict(_FIX)}, particle_extra=_BOUNDS)
             config = L.build(ctx, cfg, seed=ctx.seed + 3)
             data, phsp, bg = L.make_samples(config, ctx.seed + 3)[:3]
